@@ -126,8 +126,11 @@ CLAIMS = {
     note="Proved: the theorems above, about Model/Anf.lean and Sem. Caveat in the theorems: a source run that goes wrong (Fail.stuck = ill-typed IR) "
          "is only required to be matched by some outcome (ANF names all operands before the operation, so it notices an ill-typed operand later); "
          "well-typedness of the IR is C03's. Validated only: that the model equals anf.rs (exact tie on every real function, every run); the statement "
-         "lowering of go/compile.rs (compile_aexpr*, compile_while, compile_go) and go/dce.rs - covered by the stage-wise oracle on the Go stage, "
-         "dce.rs is modelled and proved by worker dce; real goroutine interleavings (the semantics offers two schedules: run the activation at "
+         "lowering of go/compile.rs (compile_aexpr*, compile_while, compile_go) - covered by the stage-wise oracle on the Go stage. "
+         "go/dce.rs has its own model (Model/Dce.lean) tied exactly to the real pass on every run (gv dce | gomlmodel dce) and Props/Dce.lean proves "
+         "dce_preserves / dce_preserves_body / dce_preserves_syn: every definite Go.Sem run (normal end or panic) of a function body is reproduced by the DCE'd "
+         "body with the same world, signal and result, under the decidable contract scopeErrs = [] /\\ shapeOK /\\ semOK (forward simulation; divergence of the "
+         "input run and simultaneous DCE of callees are not covered); real goroutine interleavings (the semantics offers two schedules: run the activation at "
          "the spawn / never before the spawner ends). Two small refinements of Sem.lean were needed and agreed: a tag evaluates to the enum value "
          "of its type, and && / || with a non-boolean left operand get stuck before the right operand is evaluated. Found and fixed: dead-code "
          "elimination dropped a dead division by zero (known_findings.json, fix commit by worker dce). Trusted: Lean kernel, Sem/Go.Sem, dump "
@@ -288,8 +291,9 @@ CLAIMS = {
          "reachable package directory exists and declares its own name and there is no cycle), coherent (accepted implies at most one impl per "
          "(trait, type)), order_independent (acceptance is invariant under any permutation of the type-check/merge order), enum_independent, "
          "merge_check_redundant (orphan rule + visibility + acyclicity already exclude cross-package duplicates). Tie: generated worlds "
-         "(layouts with cycles, diamonds, missing, misdeclared, inconsistent directories x placements of 8 reference forms and of impls by "
-         "trait owner x type owner, in files with and without imports) compiled by the real pipeline::compile; accept/reject, graph error and "
+         "(layouts with cycles, diamonds, missing, misdeclared, inconsistent directories x placements of 8 reference forms and of trait and inherent impls by "
+         "trait owner x target type (named, primitive, Vec/Ref/tuple/array/function/dyn/generic instance over own, foreign or primitive "
+         "arguments), in the root package and in libraries, in files with and without imports) compiled by the real pipeline::compile; accept/reject, graph error and "
          "set of diagnostic classes must equal the model's; a declarative oracle (package-level, from the property text) demands rejection "
          "independently of the model; three permuted copies per world must agree.",
     design_ref="§5 C16, §C16 — as built",
@@ -339,8 +343,10 @@ CLAIMS = {
          "(receiver types x trait/method names, every applicable call form in one program): callee names read off the real Core/Mono/Lift dumps "
          "and the real goast must equal the model's at every site, and - model-free - the static call, the instance of the bounded function and "
          "the vtable wrapper must reach one declared Go function; ill-formed programs (dyn without impl, unsatisfied bound, duplicate or "
-         "ambiguous methods) must be rejected.",
-    design_ref="§5 C17, 'C17 — as built'",
+         "ambiguous methods) must be rejected. Widened: receivers that are trait objects of ANOTHER trait (impl B for dyn A, UFCS B::m(d)), "
+         "and an effect family - every call form of an effectful method in 21 value/statement/loop/branch/match positions - whose real Go ASTs "
+         "are run under Go.Sem: all forms of one (receiver, position) must print and return the same.",
+    design_ref="§5 C17, 'C17 — as built', 'C17 — widened'",
     note="'Same code runs' is identity of the Go function reached; equality of results additionally needs C07/C09 (no Go toolchain to execute). "
          "For receivers that are instances of generic types the dyn form is proved NOT to agree (dyn_generic_instance_mismatch) - known finding; "
          "trait bounds are not checked at calls of generic functions - known finding. Single-package programs only; the 16 source anchors of the "
@@ -393,11 +399,15 @@ CLAIMS = {
     text="Go.Check, a Lean checker for the rules go build/go vet enforce on the emitted subset (declared once and before use, typed "
          "assignment/call/return/composite literal, interface satisfaction, unused locals and imports, terminating statements, legal "
          "identifiers), applied to the REAL Go AST of every accepted corpus and generated program. goIdent_legal (C19) proves identifier "
-         "legality for all strings. Known findings: closures in func-typed positions, missing() at a non-unit type.",
-    design_ref="§5 C02",
+         "legality for all strings. The printed text is tied to that AST on every run (go_pprint output parsed back by goparse.rs with "
+         "Go's automatic-semicolon, precedence and composite-literal rules; oracle go-printer). Dead-code elimination (go/dce.rs) has a "
+         "Lean model tied exactly to the real pass (gv dce | gomlmodel dce) and theorems in Props/Dce.lean: dce_no_unused (every kept "
+         "local and type-switch binding is read), dce_decl_before_use, prune_imports_exact, prune_funcs_closed. "
+         "Known findings: closures in func-typed positions, nested type switch on one scrutinee, dyn-annotated struct literal.",
+    design_ref="§5 C02; DCE (C02/C09) — as built",
     note="Trusted: Go.Check as our reading of the Go spec (accepts the 73 corpus programs real Go accepted, rejects 058 as real Go did); "
-         "goast dump; go_pprint.rs not covered.",
-    technique="translation validation with a Lean-defined Go type/scope checker on the real Go AST"),
+         "goast dump; goparse.rs as our reading of Go's lexical grammar; compile.rs itself is validated per program, not modelled.",
+    technique="translation validation with a Lean-defined Go type/scope checker on the real Go AST, printer round trip, and Lean theorems about the DCE pass"),
  "C14": dict(
     category="proof",
     text="Lean theorems over Sem (Model/Sem.lean) and Model/Alpha.lean about exactly the two things in which the Core handed to mono/lift/anf/go differs "
